@@ -425,6 +425,16 @@ impl NestedMeta {
             .parse2(tokens)
             .map(|punctuated| punctuated.into_iter().collect())
     }
+
+    /// Parse the arguments of a meta list into nested meta items.
+    ///
+    /// Unlike [`parse_meta_list`](Self::parse_meta_list) on the list's bare tokens, a syntax error
+    /// at the end of the arguments (such as a missing value in `name(key = )`) is reported at the
+    /// list's closing delimiter rather than at the macro call site.
+    pub fn parse_meta_list_args(list: &syn::MetaList) -> syn::Result<Vec<Self>> {
+        list.parse_args_with(syn::punctuated::Punctuated::<NestedMeta, Token![,]>::parse_terminated)
+            .map(|punctuated| punctuated.into_iter().collect())
+    }
 }
 
 impl syn::parse::Parse for NestedMeta {
